@@ -1,6 +1,17 @@
 #!/usr/bin/env python3
-"""setup_cmd: build the Lean project (models, proofs, driver) from files on disk; offline."""
+"""setup_cmd: build the Lean project (models, native driver, proofs) from files on disk; offline.
+
+The executable models and the native driver `adept_model` are what every check needs: if they do not build, setup fails.
+The proof libraries are pre-built too, but a proof module that does not build is NOT a setup failure: every check builds
+its own proof modules again (after regenerating the source-derived definitions from /repo's current working tree) and
+reports a proof that no longer checks as a violation of its property, with a failing input when it finds one."""
 import os, subprocess, sys
 HERE = os.path.dirname(os.path.dirname(os.path.abspath(__file__)))
-r = subprocess.run(["lake", "build"], cwd=os.path.join(HERE, "lean"))
-sys.exit(r.returncode)
+LEAN = os.path.join(HERE, "lean")
+r = subprocess.run(["lake", "build", "AdeptModel", "Driver", "adept_model"], cwd=LEAN)
+if r.returncode != 0:
+    sys.exit(r.returncode)
+r = subprocess.run(["lake", "build"], cwd=LEAN)
+if r.returncode != 0:
+    print("setup: some proof modules did not build; the checks that own them will report it", file=sys.stderr)
+sys.exit(0)
